@@ -5,9 +5,9 @@ package c05p3
 import (
 	"bytes"
 
-	"github.com/lugu/qiloop/bus/net"
 	"context"
 	"errors"
+	"github.com/lugu/qiloop/bus/net"
 	"io"
 	"sync"
 )
